@@ -612,6 +612,9 @@ def _m_tolist(interp, a):
     r = SArr(a.n, a.a, a.kind)
     r.is_list = True
     r.birth = interp.ctx.stamp
+    for extra in ("from_set", "concat_of"):
+        if getattr(a, extra, None) is not None:
+            setattr(r, extra, getattr(a, extra))
     return r
 
 
